@@ -117,6 +117,11 @@ def run(ctx):
     for cn in ("a", "z", "le", "A"):
         add(None, [[cn, "v"]], ctr + vec + his, ["m", "v", "h"], "common-label-vs-metric-label")
         add("Z", [[cn, "v"], ["q", "w"]], ctr + vec, ["v", "m"], "common-label-vs-metric-label")
+    # a refused registration followed by a retry (and by a sibling of the same family): nothing of the refused call may remain
+    for cn in ("a", "z"):
+        sib = [{"op": "counter", "as": "m2", "opts": {"name": "a", "help": "a", "const": [["a", "2"]]}}, {"op": "inc", "obj": "m2"}]
+        add(None, [[cn, "v"]], ctr + sib + vec, ["m", "m", "m2", "v", "v", "m"], "common-label-vs-metric-label")
+        add("Z", [[cn, "v"]], ctr + sib + vec, ["v", "m2", "m", "v", "m2"], "common-label-vs-metric-label")
     rres = run_api(ctx, exe, rjobs, "reg")
     recs, rix = [], []
     for j, tag in zip(rjobs, rmeta):
